@@ -2,7 +2,11 @@
   Lemmas for C09 (Markdown round trip), prose fragment: what `MarkdownRenderer.render` (model:
   `Model/Markdown.lean`) gives on the tree the parser builds for paragraphs of inert prose lines
   separated by single empty lines, and that tree itself (`Document.mkBlocks` on the parse buffer the
-  C14 block theorems compute).
+  C14 block theorems compute).  Second part: `k` markers "> " before every line of such a document
+  (`qStrs`) — the parse is `k` nested `Quote`s around the parse of the unmarked lines (C04, iterated:
+  `tokenize_qLines`, for any lines whose parse does not depend on the parser state), the renderer puts
+  the markers back (`renderBlocks_qBlocks`).  `Proofs/MdRoundBlocks.lean` adds ATX headings and thematic
+  breaks to the blocks.
 -/
 import Mistletoe.Model.Markdown
 import Mistletoe.Proofs.InertInline
